@@ -213,3 +213,17 @@ Proof.
   split; [reflexivity|]. split; [discriminate|]. split; [repeat constructor|]. split; [reflexivity|].
   split; [cbn; lia|]. split; [vm_compute; reflexivity|]. split; [vm_compute; reflexivity | reflexivity].
 Qed.
+
+(* ---- hpf_check_all on a real pformat text whose user header spells _dtype in two other ways and
+   _delim in mixed case (stripped): accepted, because pformat put _DTYPE first *)
+Definition a_text : list byte :=
+  B "{'_DTYPE': [('x', '<i2')]," ++ nl :: B " '_DtYpE': 3," ++ nl :: B " '_VERSION': '1.0'," ++ nl :: B " '_dtype': 'junk'}".
+Definition a_uhdr : hdict pv := [(B "_dtype", PStr (B "junk")); (B "_Delim", PStr (B ",")); (B "_DtYpE", PInt 3)].
+Definition a_head : hdict pv :=
+  [(B "_dtype", PStr (B "junk")); (B "_DtYpE", PInt 3); (B "_DTYPE", PList [PTuple [PStr (B "x"); PStr (B "<i2")]]);
+   (B "_VERSION", PStr (B "1.0"))].
+Lemma hpf_check_all_nonvacuous :
+  hpf_check_all a_text a_uhdr a_head ex_dt = true /\ ~ user_hdr_ok pv a_uhdr.
+Proof.
+  split; [vm_compute; reflexivity|]. intro U. specialize (U (B "_dtype") (or_introl eq_refl)). vm_compute in U. discriminate U.
+Qed.
